@@ -8,6 +8,7 @@ import (
 	"fmt"
 	"hash/fnv"
 	"sort"
+	"time"
 
 	"rendsim/kernel"
 	"rendsim/stack"
@@ -124,3 +125,5 @@ func traceHash(t []kernel.Choice) uint64 {
 }
 
 func sortStrings(s []string) { sort.Strings(s) }
+
+func secs(n int64) time.Duration { return time.Duration(n) * time.Second }
